@@ -13,6 +13,7 @@ import (
 	"strings"
 	"sync"
 	"sync/atomic"
+	"syscall"
 	"time"
 
 	"verifh/vsched"
@@ -123,6 +124,42 @@ func SetPageTear(on bool, phantom map[string]int64) {
 	tear.on.Store(on)
 }
 
+// Injected failures: FailNext arms a one-shot error for the next open ("open") or write ("write") of the file
+// with that base name; ClearFaults disarms whatever was not consumed.
+var faults struct {
+	mu sync.Mutex
+	m  map[string]string
+}
+
+func FailNext(base, stage string) {
+	faults.mu.Lock()
+	if faults.m == nil {
+		faults.m = map[string]string{}
+	}
+	faults.m[base] = stage
+	faults.mu.Unlock()
+}
+
+func ClearFaults() {
+	faults.mu.Lock()
+	faults.m = nil
+	faults.mu.Unlock()
+}
+
+func takeFault(path, stage string) error {
+	faults.mu.Lock()
+	defer faults.mu.Unlock()
+	b := filepath.Base(path)
+	if faults.m[b] != stage {
+		return nil
+	}
+	delete(faults.m, b)
+	if stage == "open" {
+		return &os.PathError{Op: "open", Path: path, Err: syscall.EACCES}
+	}
+	return &os.PathError{Op: "write", Path: path, Err: syscall.ENOSPC}
+}
+
 func (f *File) chunks(b []byte) [][]byte {
 	if !tear.on.Load() || len(b) == 0 {
 		return [][]byte{b}
@@ -186,6 +223,11 @@ func Open(name string) (*File, error) {
 
 func OpenFile(name string, flag int, perm FileMode) (*File, error) {
 	point("openfile")
+	if flag&(O_WRONLY|O_RDWR) != 0 {
+		if err := takeFault(name, "open"); err != nil {
+			return nil, err
+		}
+	}
 	existed := true
 	if flag&(O_CREATE|O_TRUNC) != 0 {
 		if _, err := os.Stat(name); err != nil {
@@ -240,6 +282,9 @@ func (f *File) Write(b []byte) (int, error) {
 	if f.f == os.Stdout || f.f == os.Stderr {
 		return f.f.Write(b)
 	}
+	if err := takeFault(f.path, "write"); err != nil {
+		return 0, err
+	}
 	total := 0
 	cs := f.chunks(b)
 	for i, c := range cs {
@@ -284,6 +329,9 @@ func ReadFile(name string) ([]byte, error) {
 // that "present but empty" exists as a step boundary.
 func WriteFile(name string, data []byte, perm FileMode) error {
 	point("writefile-open")
+	if err := takeFault(name, "open"); err != nil {
+		return err
+	}
 	begin()
 	f, err := os.OpenFile(name, os.O_WRONLY|os.O_CREATE|os.O_TRUNC, perm)
 	if err != nil {
@@ -292,6 +340,10 @@ func WriteFile(name string, data []byte, perm FileMode) error {
 	}
 	mutated("writefile-open", name)
 	point("writefile-write")
+	if err := takeFault(name, "write"); err != nil {
+		f.Close()
+		return err
+	}
 	begin()
 	_, err = f.Write(data)
 	mutated("writefile-write", name)
